@@ -2,7 +2,6 @@ package otto
 
 import (
 	"strconv"
-	"time"
 )
 
 var (
@@ -22,15 +21,8 @@ var (
 		kind:  valueNumber,
 		value: 0,
 	}
-	prototypeValueDate = dateObject{
-		epoch: 0,
-		isNaN: false,
-		time:  time.Unix(0, 0).UTC(),
-		value: Value{
-			kind:  valueNumber,
-			value: 0,
-		},
-	}
+	// 15.9.5: the Date prototype object is a Date object whose time value is NaN.
+	prototypeValueDate   = invalidDateObject
 	prototypeValueRegExp = regExpObject{
 		regularExpression: nil,
 		global:            false,
